@@ -176,6 +176,7 @@ func (x *Exec) mapLoops(fr *Frame) {
 type exitRec struct {
 	st  *State
 	res Val
+	pos token.Pos
 }
 
 // runFunc symbolically executes fr.fn from entry; returns the merged exit state and results.
@@ -368,7 +369,7 @@ func (x *Exec) runFunc(fr *Frame, entry *State) (*State, Val) {
 				for _, r := range t.Results {
 					ls = append(ls, x.val(fr, r).L...)
 				}
-				exits = append(exits, exitRec{st.clone(), Val{T: resT, L: ls}})
+				exits = append(exits, exitRec{st.clone(), Val{T: resT, L: ls}, t.Pos()})
 				terminated = true
 				if fr == x.top && !fr.spec && fr.unit != nil && x.entry != nil && x.lockBalanceChecked(fr) {
 					// every mutex is in the state it was in on entry (the contract says otherwise by
@@ -386,7 +387,7 @@ func (x *Exec) runFunc(fr *Frame, entry *State) (*State, Val) {
 				if fr.spec {
 					// spec functions are total: a panicking branch yields an arbitrary value
 					r := x.freshVal(resT, "specpanic")
-					exits = append(exits, exitRec{st.clone(), r})
+					exits = append(exits, exitRec{st.clone(), r, t.Pos()})
 				} else {
 					x.addObl(fr, st, "panic", t, x.panicText(fr, t), tb.False)
 				}
